@@ -58,6 +58,19 @@ def steer_l2(r, tree, codes, mcodes=None):
             b["Level2"]["target_max_pq"] = r.choice(codes)
 
 
+def set_l1(tree, val):
+    """val = None (no L1 block) or (min, max, avg)"""
+    d = tree.get("vdr_dm_data")
+    if not d or not d.get("cmv29_metadata"):
+        return
+    c = d["cmv29_metadata"]
+    blocks = [b for b in c["ext_metadata_blocks"] if "Level1" not in b]
+    if val is not None:
+        blocks.insert(0, {"Level1": {"min_pq": val[0], "max_pq": val[1], "avg_pq": val[2]}})
+    c["ext_metadata_blocks"] = blocks
+    c["num_ext_blocks"] = len(blocks)
+
+
 def set_l5(tree, key):
     """key = None (no L5 block) or (l, r, t, b)"""
     d = tree.get("vdr_dm_data")
@@ -166,6 +179,7 @@ def run(res):
         prof_mix = r.choice([[8], [8], [7], [5], [8, 7], [4, 5, 7, 8]])
         # L5 pattern: runs of equal offsets, alternating, missing
         pat = r.choice(["runs", "runs", "alternate", "missing-mix", "constant", "none"])
+        dim = r.random() < 0.25
         keys_pool = [(0, 0, 276, 276), (0, 0, 0, 0), (240, 240, 0, 0), (10, 20, 30, 40)]
         trees, raws = [], []
         cur = r.choice(keys_pool)
@@ -188,6 +202,10 @@ def run(res):
                 key = None
             set_l5(t, key)
             steer_l2(r, t, BCODES, MCODES)
+            if dim:
+                # a dim list: L1 averages below the CM v4.0 floor 1229 or no L1 at all (the stand-in block of a frame
+                # without L1 then decides MaxFALL: 819 for a pure CM v2.9 list, 1229 as soon as one frame is CM v4.0)
+                set_l1(t, None if r.random() < 0.5 else (r.choice([0, 12]), r.choice([2081, 2500, 1300]), r.choice([0, 500, 819, 1000, 1228])))
             if t.get("vdr_dm_data"):
                 t["vdr_dm_data"]["scene_refresh_flag"] = r.choice([0, 0, 0, 1])
             raw = G.encode(t).rstrip(b"\x00")
@@ -332,7 +350,7 @@ def run(res):
     res.coverage.update({
         "evaluations": nrun,
         "distinct_nontrivial": ncase,
-        "rule": "RPU lists of 1..20 frames from the reference generator (profiles 4/5/7/8 mixed, CM v2.9 / v4.0, random L1/L2/L6/L8.., random scene flags) with L5 patterns: runs of equal offsets of any length, alternating, missing L5 mixed with zero offsets, constant, none; export -d all vs the library's serialisation of each parsed RPU and vs `info -f i`; `info -f n` out of range; export -d scenes vs the flags in the per-frame JSON and the Coq model; export -d level5 vs the Coq model (presets, ranges) and applied through `editor` to the same list and to an unrelated list of the same length, re-exported and compared frame by frame; info --summary parsed and compared with figures recomputed from the per-frame JSON and with the Coq model",
+        "rule": "RPU lists of 1..20 frames from the reference generator (profiles 4/5/7/8 mixed, CM v2.9 / v4.0, random L1/L2/L6/L8.., random scene flags; a quarter of the lists dim: L1 averages below the CM v4.0 floor or no L1 block) with L5 patterns: runs of equal offsets of any length, alternating, missing L5 mixed with zero offsets, constant, none; export -d all vs the library's serialisation of each parsed RPU and vs `info -f i`; `info -f n` out of range; export -d scenes vs the flags in the per-frame JSON and the Coq model; export -d level5 vs the Coq model (presets, ranges) and applied through `editor` to the same list and to an unrelated list of the same length, re-exported and compared frame by frame; info --summary parsed and compared with figures recomputed from the per-frame JSON and with the Coq model",
         "cli_runs": nrun, "stats": stats,
     })
     res.assumptions += ["nits figures are compared after the 2-decimal formatting with a reference PQ implementation in floating point (the PQ function itself is C19's subject)",
